@@ -667,9 +667,10 @@ int flatcc_verify_union_vector_field(flatcc_table_verifier_descriptor_t *td,
     uoffset_t count, base;
 
     if (0 == (vte_type = read_vt_entry(td, id - 1))) {
-        if (0 == (vte_table = read_vt_entry(td, id))) {
-            verify(!required, flatcc_verify_error_type_field_absent_from_required_union_vector_field);
-        }
+        vte_table = read_vt_entry(td, id);
+        /* Readers fetch the value vector regardless: it must not be present without its type vector. */
+        verify(vte_table == 0, flatcc_verify_error_union_cannot_have_a_table_without_a_type);
+        verify(!required, flatcc_verify_error_type_field_absent_from_required_union_vector_field);
     }
     check_result(flatcc_verify_vector_field(td, id - 1, required,
                 utype_size, utype_size, FLATBUFFERS_COUNT_MAX(utype_size)));
@@ -681,7 +682,8 @@ int flatcc_verify_union_vector_field(flatcc_table_verifier_descriptor_t *td,
     ++buf;
     types = (utype_t *)buf;
 
-    check_field(td, id, required, base);
+    /* Readers index the value vector by the length of the type vector: it is required unless that is empty. */
+    check_field(td, id, required || count > 0, base);
     return verify_union_vector(td->buf, td->end, base, read_uoffset(td->buf, base),
             count, types, td->ttl, uvf);
 }
